@@ -86,6 +86,25 @@ impl<'a> Ev<'a> {
                             self.lets.push(json!({"names":[f.sig.ident.to_string()],"line":line_of(f),"nested_fn":nested,"guard":self.guard_json()}));
                         }
                     }
+                    if let syn::Item::Const(c) = it {
+                        // local constant: a named value of this body
+                        let v = self.expr(&c.expr, "const_init");
+                        let name = c.ident.to_string();
+                        self.define(&name, json!({"k":"var","name":name,"v":v,"ty":norm_ty(&c.ty),"const":true}));
+                    }
+                    if let syn::Item::Impl(i) = it {
+                        // impl block local to a function body (e.g. a one-off syn visitor): its methods are functions too
+                        let self_ty = norm_ty(&i.self_ty);
+                        let trait_name = i.trait_.as_ref().map(|(_, p, _)| tok(p));
+                        for ii in &i.items {
+                            if let syn::ImplItem::Fn(m) = ii {
+                                let nested = eval_fn(self.idx, "", "", Some(self_ty.clone()), trait_name.clone(), &m.sig, &m.block, &m.attrs, "");
+                                if self.silent == 0 {
+                                    self.lets.push(json!({"names":[],"line":line_of(m),"nested_fn":nested,"guard":self.guard_json()}));
+                                }
+                            }
+                        }
+                    }
                 }
                 Stmt::Expr(e, semi) => {
                     let p = if is_last && semi.is_none() { parent } else { "stmt" };
@@ -217,6 +236,15 @@ impl<'a> Ev<'a> {
                         return json!({"k":"none"});
                     }
                     let ty = self.idx.consts.get(&name).cloned();
+                    if let Some(init) = self.idx.const_exprs.get(&name) {
+                        if self.depth < 150 {
+                            let init = init.clone();
+                            self.silent += 1;
+                            let v = self.expr(&init, "const_init");
+                            self.silent -= 1;
+                            return json!({"k":"var","name":name,"v":v,"ty":ty,"const":true});
+                        }
+                    }
                     return with_ty(json!({"k":"path","text":name}), ty);
                 }
                 json!({"k":"path","text":tok(&p.path)})
@@ -247,6 +275,20 @@ impl<'a> Ev<'a> {
                 let ty = if matches!(op.as_str(), "&&" | "||" | "==" | "!=" | "<" | ">" | "<=" | ">=") { Some("bool".to_string()) } else { ty_of(&l) };
                 // compound assignment on a local
                 if op.ends_with('=') && !matches!(op.as_str(), "==" | "!=" | "<=" | ">=") {
+                    if op == "+=" {
+                        if let Expr::Path(p) = &*b.left {
+                            if p.path.segments.len() == 1 {
+                                let var = p.path.segments[0].ident.to_string();
+                                if let Some(cur) = self.lookup(&var) {
+                                    let t = ty_of(&cur).unwrap_or_default();
+                                    if t == "String" {
+                                        let nv = concat_value(&cur, &r, line_of(b));
+                                        self.set_existing(&var, json!({"k":"var","name":var,"v":nv,"ty":"String"}));
+                                    }
+                                }
+                            }
+                        }
+                    }
                     if self.silent == 0 {
                         self.assigns.push(json!({"target":l,"op":op,"value":r,"line":line_of(b),"guard":self.guard_json(),"text":tok(&b.left)}));
                     }
@@ -719,6 +761,16 @@ impl<'a> Ev<'a> {
                         let inner = see_through(&cur).clone();
                         let mut items: Vec<Value> = inner.get("items").and_then(|i| i.as_array()).cloned().unwrap_or_default();
                         let is_vec = matches!(inner.get("k").and_then(|k| k.as_str()), Some("vecof") | Some("vec"));
+                        let cur_ty = ty_of(&cur).or_else(|| ty_of(&inner)).unwrap_or_default();
+                        let kind = inner.get("k").and_then(|k| k.as_str()).unwrap_or("");
+                        let stringish = cur_ty == "String" || cur_ty == "str" || (kind == "fmt") || (kind == "lit" && inner.get("t").and_then(|t| t.as_str()) == Some("str"));
+                        let char_lit = args.len() == 1 && args[0].get("k").and_then(|k| k.as_str()) == Some("lit") && args[0].get("t").and_then(|t| t.as_str()) == Some("char");
+                        if !is_vec && (name == "push_str" || (name == "push" && (stringish || (cur_ty.is_empty() && char_lit)))) && args.len() == 1 && kind != "vecof" {
+                            // in-place string building: the variable now denotes old ++ piece (a conditional piece is
+                            // merged into a `cond` at the join point like any other reassignment)
+                            let nv = concat_value(&cur, &args[0], line);
+                            self.set_existing(&var, json!({"k":"var","name":var,"v":nv,"ty":"String"}));
+                        }
                         if is_vec {
                             let val = if name == "insert" && args.len() == 2 { json!({"k":"tuple","items":args.clone()}) } else { args.last().cloned().unwrap_or(Value::Null) };
                             let val = if size(&val) > 500 { json!({"k":"big"}) } else { val };
